@@ -61,3 +61,38 @@ def editgen(run: Run, seeds: list[str], repl: list[str], ops=("prefix", "del", "
     os.remove(out)
     res.sort(key=lambda d: (d["seed"], d["op"], d["pos"], d["cls"]))
     return res
+
+
+def editgen_raw(run: Run, lens: list[int], repl: list[str], ops, name="tokedit") -> list[dict]:
+    """EditGen over abstract seeds given by their lengths; returns the raw edit records
+    {"seed" (0-based), "op", "pos", "cls"}."""
+    out = os.path.join(run.dir, name + ".ndjson")
+    cfg = "INIT Init\nNEXT Next\nINVARIANT Export\nCHECK_DEADLOCK FALSE\n"
+    run_tlc(run, "EditGen", cfg, env={"OUT": out}, name=name, consts={"SeedLens": lens, "Repl": set(repl), "Ops": set(ops)})
+    res = [{"seed": e["seed"] - 1, "op": e["op"], "pos": e["pos"], "cls": e["cls"]} for e in read_export(out)]
+    os.remove(out)
+    res.sort(key=lambda d: (d["seed"], d["op"], d["pos"], d["cls"]))
+    return res
+
+
+def apply_edit(seq: list, e: dict) -> list:
+    """apply an EditGen record to a sequence (characters or tokens)"""
+    p, op = e["pos"], e["op"]
+    if op == "prefix":
+        return seq[:p]
+    if op == "del":
+        return seq[: p - 1] + seq[p:]
+    if op == "ins":
+        return seq[:p] + [e["cls"]] + seq[p:]
+    if op == "rep":
+        return seq[: p - 1] + [e["cls"]] + seq[p:]
+    if op == "dup":
+        return seq[:p] + [seq[p - 1]] + seq[p:]
+    if op == "swap":
+        return seq[: p - 1] + [seq[p], seq[p - 1]] + seq[p + 1:]
+    raise ValueError(op)
+
+
+def alltok(run: Run, vocab: list[str], maxlen: int, name="alltok") -> list[list[str]]:
+    """every token string of length 1..maxlen over the vocabulary (CharGen over tokens)"""
+    return chargen(run, vocab, maxlen, minlen=1, name=name)
